@@ -123,14 +123,14 @@ Proof.
 Qed.
 
 Definition okey (o : op) : skey :=
-  match o with OSub f s _ => (split f, s) | OUnsub f s => (split f, s) | ORetain _ _ _ => ([], 0) end.
-Definition is_subop (o : op) : bool := match o with ORetain _ _ _ => false | _ => true end.
+  match o with OSub f s _ => (split f, s) | OUnsub f s => (split f, s) | ORetain _ _ _ _ => ([], 0) end.
+Definition is_subop (o : op) : bool := match o with ORetain _ _ _ _ => false | _ => true end.
 
 Lemma alookup_step k m o : is_subop o = true ->
   alookup k (abs_step m o) =
   if skey_eqb (okey o) k then match o with OSub _ _ sp => Some sp | _ => None end else alookup k m.
 Proof.
-  destruct o as [f s sp|f s|t mg e]; cbn [is_subop abs_step okey]; intros Hs; [| |discriminate].
+  destruct o as [f s sp|f s|t mg e ow]; cbn [is_subop abs_step okey]; intros Hs; [| |discriminate].
   - unfold alookup at 1. cbn [List.find fst snd]. destruct (skey_eqb (split f, s) k) eqn:E; [reflexivity|].
     change (alookup k (filter (fun x => negb (skey_eqb (fst x) (split f, s))) m) = alookup k m).
     rewrite alookup_filter, E. reflexivity.
